@@ -165,6 +165,17 @@ class Untranslated(Exception):
     pass
 
 
+PURE_SUMM = None  # effect summaries of html5ever (set by compare): a helper without writes / external effects is not a step
+
+
+def _is_pure_helper(a):
+    m = re.fullmatch(r"self\.([a-z_0-9]+)", a)
+    if not m or PURE_SUMM is None:
+        return False
+    s = PURE_SUMM.get(("TreeBuilder", m.group(1)))
+    return s is not None and not s.w and not s.ext and not s.unknown
+
+
 def translate(cell, mode, tok):
     """-> (steps, extra markers)"""
     acts = [(a[0], [str(x) for x in a[1]]) for a in cell["actions"]]
@@ -321,6 +332,8 @@ def translate(cell, mode, tok):
             steps.append("clone-option")
         elif a == "panic!":
             return None
+        elif _is_pure_helper(a):
+            continue
         else:
             raise Untranslated("%s(%s)" % (a, ",".join(args))[:120])
     # results
@@ -432,7 +445,9 @@ def code_paths(cells, mode, tok, report_unmapped):
     return out
 
 
-def compare(cells, modes_in_code, report_ok, report_bad, notes=None):
+def compare(cells, modes_in_code, report_ok, report_bad, notes=None, summaries=None):
+    global PURE_SUMM
+    PURE_SUMM = summaries
     spec = load_rows()
     n = 0
     unmapped = set()
